@@ -181,6 +181,9 @@ type Case struct {
 	// Steer: repair the input class of the known finding sigOOR before every pass (set by the
 	// generator while the finding is listed in known.go; false in the finding's replay file).
 	Steer []string `json:"steer,omitempty"`
+	// Exact: the scenario is an undisturbed rollout walk (built by genWalk): after every pass each
+	// released batch must be labelled exactly.
+	Exact bool `json:"exact,omitempty"`
 }
 
 func updateRevision(kind string, rev int) string {
@@ -528,6 +531,7 @@ func (c *cclient) Patch(ctx context.Context, obj client.Object, patch client.Pat
 }
 
 type world struct {
+	chk string
 	t   vlib.TB
 	c   *Case // the executed case (for vlib.Fail)
 	raw client.Client
@@ -618,8 +622,8 @@ func (w *world) workloadObject() client.Object {
 	return &appsv1.Deployment{ObjectMeta: om, Spec: appsv1.DeploymentSpec{Replicas: &rep, Selector: sel, Template: depTemplate(w.rev)}}
 }
 
-func newWorld(t vlib.TB, c *Case) *world {
-	w := &world{t: t, c: c, kind: c.Kind, replicas: c.Replicas, batches: c.Batches, rolloutID: c.RolloutID,
+func newWorld(t vlib.TB, chkName string, c *Case) *world {
+	w := &world{chk: chkName, t: t, c: c, kind: c.Kind, replicas: c.Replicas, batches: c.Batches, rolloutID: c.RolloutID,
 		cur: c.CurrentBatch, rev: c.Rev, rollback: c.Rollback}
 	objs := []client.Object{w.workloadObject()}
 	if w.kind == kDeployment {
@@ -643,7 +647,7 @@ func newWorld(t vlib.TB, c *Case) *world {
 func (w *world) harnessErr(err error, what string) {
 	if err != nil {
 		// a harness problem, never a finding
-		w.t.Fatalf("[%s] HARNESS-ERROR %s: %v", chk, what, err)
+		w.t.Fatalf("[%s] HARNESS-ERROR %s: %v", w.chk, what, err)
 	}
 }
 
@@ -679,6 +683,27 @@ func (w *world) updateWorkload() {
 	obj := w.workloadObject()
 	obj.SetResourceVersion(old.GetResourceVersion())
 	w.harnessErr(w.raw.Update(context.TODO(), obj), "update workload")
+}
+
+// recreate replaces p by a fresh, unlabelled pod of the update revision (same name for a StatefulSet).
+func (w *world) recreate(p *corev1.Pod) {
+	name := p.Name
+	w.hardDelete(p)
+	if w.kind != kStatefulSet {
+		name = name + "x"
+	}
+	np := PodCase{Name: name, Labels: map[string]string{"app": "demo"}, Phase: "Running", Owner: "wl"}
+	switch w.kind {
+	case kDeployment:
+		np.Owner = fmt.Sprintf("rs%d", w.rev)
+		np.Labels[lblPTH] = fmt.Sprintf("kcm%d", w.rev)
+	case kCloneSet:
+		np.Labels[lblCRH] = wlName + "-" + shortHash[w.rev]
+		np.Labels[lblPTH] = shortHash[w.rev]
+	default:
+		np.Labels[lblCRH] = wlName + "-" + shortHash[w.rev]
+	}
+	w.harnessErr(client.IgnoreAlreadyExists(w.raw.Create(context.TODO(), w.newPod(np))), "recreate pod")
 }
 
 func (w *world) apply(a Action) {
@@ -727,25 +752,23 @@ func (w *world) apply(a Action) {
 			w.harnessErr(w.raw.Update(context.TODO(), p), "add finalizer")
 			w.harnessErr(w.raw.Delete(context.TODO(), p), "terminate pod")
 		}
+	case "update": // the workload controller replaces N live old-revision pods by fresh update-revision pods
+		n := a.N
+		for _, p := range w.allPods() {
+			if n <= 0 {
+				break
+			}
+			pod := p
+			s := snap{labels: p.Labels, owner: metav1.GetControllerOf(&pod)}
+			if !p.DeletionTimestamp.IsZero() || w.consistent(s) {
+				continue
+			}
+			w.recreate(&pod)
+			n--
+		}
 	case "recreate": // the workload controller replaces the pod by a fresh one of the update revision
 		if p := w.pick(a.Pod); p != nil {
-			name := p.Name
-			w.hardDelete(p)
-			if w.kind != kStatefulSet {
-				name = name + "x"
-			}
-			np := PodCase{Name: name, Labels: map[string]string{"app": "demo"}, Phase: "Running", Owner: "wl"}
-			switch w.kind {
-			case kDeployment:
-				np.Owner = fmt.Sprintf("rs%d", w.rev)
-				np.Labels[lblPTH] = fmt.Sprintf("kcm%d", w.rev)
-			case kCloneSet:
-				np.Labels[lblCRH] = wlName + "-" + shortHash[w.rev]
-				np.Labels[lblPTH] = shortHash[w.rev]
-			default:
-				np.Labels[lblCRH] = wlName + "-" + shortHash[w.rev]
-			}
-			w.harnessErr(client.IgnoreAlreadyExists(w.raw.Create(context.TODO(), w.newPod(np))), "recreate pod")
+			w.recreate(p)
 		}
 	case "add":
 		if a.New != nil {
@@ -963,7 +986,7 @@ func (w *world) buildContext() *passInfo {
 }
 
 func (w *world) fail(sig, format string, args ...any) {
-	vlib.Fail(w.t, chk, sig, w.c, format, args...)
+	vlib.Fail(w.t, w.chk, sig, w.c, format, args...)
 }
 
 // neutralise repairs the input class of the known finding sigOOR: a live, owned, revision-consistent
@@ -985,7 +1008,7 @@ func (w *world) neutralise() {
 		hit = true
 	}
 	if hit {
-		vlib.Excluded(chk, sigOOR)
+		vlib.Excluded(w.chk, sigOOR)
 		w.sum.neutralised++
 	}
 }
@@ -1058,7 +1081,7 @@ func (w *world) neutraliseHidden() {
 		hit = true
 	}
 	if hit {
-		vlib.Excluded(chk, sigHidden)
+		vlib.Excluded(w.chk, sigHidden)
 		w.sum.neutralised++
 	}
 }
@@ -1284,6 +1307,16 @@ func (w *world) pass(targetDelta int) {
 		}
 	}
 
+	// ---- exactness on an undisturbed rollout walk: every released batch is labelled exactly
+	if w.c.Exact {
+		for i := 0; i <= w.cur; i++ {
+			if got := ca[strconv.Itoa(i+1)]; got != inc[i] {
+				w.fail("c12-walk-batch-not-exact", "after the pass of batch %d: %d live update-revision pods carry (%q,%q), the plan %v with %d replicas adds %d in that batch (all counts %v, increments %v)",
+					w.cur+1, got, w.rolloutID, strconv.Itoa(i+1), w.batches, w.replicas, inc[i], ca, inc)
+			}
+		}
+	}
+
 	// ---- (4) an immediate second pass changes nothing and writes nothing
 	pi2 := w.buildContext()
 	if p, msg := w.runPatcher(pi2); p {
@@ -1335,9 +1368,9 @@ func (w *world) pass(targetDelta int) {
 
 // ---------- run ----------
 
-func run(t vlib.TB, c Case) summary {
+func run(t vlib.TB, chkName string, c Case) summary {
 	cc := c
-	w := newWorld(t, &cc)
+	w := newWorld(t, chkName, &cc)
 	for _, a := range c.Actions {
 		if a.Op == "patch" {
 			w.pass(a.N)
@@ -1356,13 +1389,12 @@ func js(v any) string {
 func TestC12LabelPatch(t *testing.T) {
 	var rc Case
 	if ok, _ := vlib.LoadReplay(chk, &rc); ok {
-		run(t, rc)
+		run(t, chk, rc)
 		return
 	}
-	_ = os.Getenv
 	rapid.Check(t, func(t *rapid.T) {
 		c := gen(t)
-		s := run(t, c)
+		s := run(t, chk, c)
 		cls := []string{"kind=" + c.Kind, fmt.Sprintf("batches=%d", len(c.Batches))}
 		if c.RolloutID == "" {
 			cls = append(cls, "rollout-id-empty")
@@ -1402,4 +1434,115 @@ func dedup(in []string) []string {
 		}
 	}
 	return out
+}
+
+// ---------- second sub-check: an undisturbed rollout, batch by batch ----------
+
+const chkWalk = "c12-rollout-walk"
+
+// genWalk builds a rollout as it normally proceeds: all pods start on the old revision without
+// labels; for every batch the workload controller replaces as many old pods as the plan adds, pods
+// (old or new) may additionally be recreated, then the labelling pass runs and the batch is raised.
+// The number of live update-revision pods is therefore never below the plan's target, and every
+// released batch must be labelled exactly (Case.Exact).
+func genWalk(t *rapid.T) Case {
+	c := Case{Exact: true}
+	c.Kind = rapid.SampledFrom([]string{kCloneSet, kDeployment, kStatefulSet}).Draw(t, "kind")
+	if rapid.Bool().Draw(t, "small") {
+		c.Replicas = rapid.IntRange(1, 8).Draw(t, "replicas")
+	} else {
+		c.Replicas = rapid.IntRange(1, 40).Draw(t, "replicas")
+	}
+	nb := rapid.IntRange(1, 5).Draw(t, "plan-n")
+	pct := rapid.Bool().Draw(t, "plan-pct")
+	lo := 0
+	for i := 0; i < nb; i++ {
+		var b intstr.IntOrString
+		if pct {
+			v := rapid.IntRange(lo, 100).Draw(t, fmt.Sprintf("plan-%d", i))
+			b, lo = intstr.FromString(fmt.Sprintf("%d%%", v)), v
+		} else {
+			v := rapid.IntRange(lo, c.Replicas).Draw(t, fmt.Sprintf("plan-%d", i))
+			b, lo = intstr.FromInt(v), v
+		}
+		c.Batches = append(c.Batches, b)
+	}
+	c.RolloutID = rapid.SampledFrom(rolloutIDs).Draw(t, "rollout-id")
+	c.Rev = rapid.IntRange(0, 2).Draw(t, "rev")
+	c.ListSeed = uint32(rapid.IntRange(0, 7).Draw(t, "list-seed"))
+	old := (c.Rev + 1 + rapid.IntRange(0, 1).Draw(t, "old-rev")) % 3
+	for i := 0; i < c.Replicas; i++ {
+		p := PodCase{Name: podName(c.Kind, i), Labels: map[string]string{"app": "demo"}, Phase: "Running", Owner: "wl"}
+		switch c.Kind {
+		case kDeployment:
+			p.Owner = fmt.Sprintf("rs%d", old)
+			p.Labels[lblPTH] = fmt.Sprintf("kcm%d", old)
+			if rapid.Bool().Draw(t, fmt.Sprintf("pod%d-crh", i)) {
+				p.Labels[lblCRH] = depRev[old]
+			}
+		case kCloneSet:
+			p.Labels[lblCRH] = wlName + "-" + shortHash[old]
+			p.Labels[lblPTH] = shortHash[old]
+		default:
+			p.Labels[lblCRH] = wlName + "-" + shortHash[old]
+		}
+		// leftovers of the previous release of the same workload
+		if rapid.IntRange(0, 3).Draw(t, fmt.Sprintf("pod%d-stale", i)) == 0 {
+			p.Labels[lblRID] = "r0"
+			p.Labels[lblBID] = rapid.SampledFrom([]string{"1", "2", "5"}).Draw(t, fmt.Sprintf("pod%d-stale-bid", i))
+		}
+		c.Pods = append(c.Pods, p)
+	}
+	last := rapid.IntRange(0, nb-1).Draw(t, "last-batch")
+	prev := 0
+	for b := 0; b <= last; b++ {
+		tg := target(c.Batches[b], c.Replicas)
+		if tg > prev {
+			c.Actions = append(c.Actions, Action{Op: "update", N: tg - prev})
+			prev = tg
+		}
+		for k, n := 0, rapid.IntRange(0, 2).Draw(t, fmt.Sprintf("b%d-chaos", b)); k < n; k++ {
+			c.Actions = append(c.Actions, Action{Op: "recreate", Pod: rapid.IntRange(0, 63).Draw(t, fmt.Sprintf("b%d-chaos%d", b, k))})
+		}
+		c.Actions = append(c.Actions, Action{Op: "patch", N: rapid.IntRange(-1, 1).Draw(t, fmt.Sprintf("b%d-target", b))})
+		if rapid.IntRange(0, 4).Draw(t, fmt.Sprintf("b%d-again", b)) == 0 { // another reconcile of the same batch
+			c.Actions = append(c.Actions, Action{Op: "patch"})
+		}
+		if b < last {
+			c.Actions = append(c.Actions, Action{Op: "raise"})
+		}
+	}
+	return c
+}
+
+func TestC12RolloutWalk(t *testing.T) {
+	var rc Case
+	if ok, _ := vlib.LoadReplay(chkWalk, &rc); ok {
+		run(t, chkWalk, rc)
+		return
+	}
+	rapid.Check(t, func(t *rapid.T) {
+		c := genWalk(t)
+		s := run(t, chkWalk, c)
+		chaos := 0
+		for _, a := range c.Actions {
+			if a.Op == "recreate" {
+				chaos++
+			}
+		}
+		cls := []string{"kind=" + c.Kind, fmt.Sprintf("batches=%d", len(c.Batches)), fmt.Sprintf("passes=%d", s.passes)}
+		if chaos > 0 {
+			cls = append(cls, "pods-recreated")
+		}
+		if s.patched > 0 {
+			cls = append(cls, "patched>=1")
+		}
+		if s.crhPatched > 0 {
+			cls = append(cls, "revision-hash-patched")
+		}
+		if s.nonCanonical > 0 {
+			cls = append(cls, "stale-labels-present")
+		}
+		vlib.Record(chkWalk, js(c), s.passes >= 2 && s.patched > 0 && chaos > 0, cls, func() any { return c })
+	})
 }
